@@ -15,7 +15,45 @@
 import PV.Model.PipeAtomic
 import PV.Generated.C24
 import PV.Base.DriverIO
+import Std.Data.HashMap
 open PV PV.Pipe
+
+/-! ## exhaustive exploration of the statement-level model (a *search*, run on every check; not a proof)
+
+`S exhaust <code> <g>`: breadth-first over every schedule of the lock-holder abstraction of the statement-level
+machine (thread 0 runs channel operations, thread 1 operations on the stdout buffer, thread 2 on the stderr buffer —
+a thread that has not got its first lock has done nothing, so more threads add no behaviour).  Reports the number of
+reachable / quiescent states, the quiescent states after fileno() where `readable ≠ shouldBeReadable`, the deadlocked
+states, and a shortest schedule to the first offender (replayed on the real code by the harness). -/
+
+deriving instance Hashable for Var, Expr, Meth, Target, Instr, Obj, PLock, HLock, Lock, PSt, Frame, HCond, PInstr,
+  Thread, St
+
+def exhaustAlphabet : List Act :=
+  [Op.eof, .close, .fileno].map (.start 0) ++
+  [Op.feed false, .feedEmpty false, .drain false, .empty false].map (.start 1) ++
+  [Op.feed true, .feedEmpty true, .drain true, .empty true].map (.start 2) ++ [.step 0, .step 1, .step 2]
+
+partial def exhaustBfs (c : Code) (g : Bool) (front : List St) (next : List St)
+    (seen : Std.HashMap St (Option (St × Act))) : Std.HashMap St (Option (St × Act)) :=
+  match front with
+  | [] => if next.isEmpty then seen else exhaustBfs c g next.reverse [] seen
+  | s :: rest =>
+    let (next', seen') := exhaustAlphabet.foldl (fun (acc : List St × Std.HashMap St (Option (St × Act))) a =>
+      let s' := act c g s a
+      if acc.2.contains s' then acc else (s' :: acc.1, acc.2.insert s' (some (s, a)))) (next, seen)
+    exhaustBfs c g rest next' seen'
+
+partial def pathTo (seen : Std.HashMap St (Option (St × Act))) (s : St) (acc : List Act) : List Act :=
+  match seen.get? s with
+  | some (some (p, a)) => pathTo seen p (a :: acc)
+  | _ => acc
+
+def isDeadlock (c : Code) (s : St) : Bool :=
+  s.threads.any (fun t => !idle t) &&
+    (List.range s.threads.length).all (fun tid => match s.threads[tid]? with
+      | some t => idle t || (tstep c s tid == s)
+      | none => true)
 
 def b01 (b : Bool) : String := if b then "1" else "0"
 
@@ -85,8 +123,24 @@ def showAct : Act → String
     | .eof => "eof" | .close => "close" | .fileno => "fileno")
   | .step tid => "step " ++ toString tid
 
+def exhaust (c : Code) (g : Bool) : String :=
+  let s0 := init 3
+  let seen := exhaustBfs c g [s0] [] ((Std.HashMap.emptyWithCapacity 32768).insert s0 none)
+  let all := seen.toList.map (·.1)
+  let quiet := all.filter quiescent
+  let bad := quiet.filter (fun s => s.hasPipe && s.ev1 && s.ev2 && (readable s != shouldBeReadable s))
+  let dead := all.filter (isDeadlock c)
+  let ex := match bad ++ dead with
+    | s :: _ => ";".intercalate ((pathTo seen s []).map showAct)
+    | [] => "-"
+  s!"states={all.length} quiescent={quiet.length} bad={bad.length} deadlocks={dead.length} example={ex}"
+
 def dstep (d : DSt) (line : String) : DSt × String :=
   match words line with
+  | ["S", "exhaust", c, g] =>
+    match parseCode c, parseG g with
+    | some c, some g => (d, exhaust c g)
+    | _, _ => (d, "bad-op")
   | ["S", "new", c, n, g] =>
     match parseCode c, n.toNat?, parseG g with
     | some c, some n, some g => let s := init n; ({ d with code := c, g := g, s := s }, showS s)
